@@ -44,11 +44,14 @@ def prepare():
 
 
 def main():
+    global SCR_REPO, SCR_VERIF
     args = sys.argv[1:]
     tier, props, seed, dirs = "quick", None, None, []
     i = 0
     while i < len(args):
-        if args[i] == "--tier":
+        if args[i] == "--suffix":
+            SCR_REPO += args[i + 1]; SCR_VERIF += args[i + 1]; i += 2
+        elif args[i] == "--tier":
             tier = args[i + 1]; i += 2
         elif args[i] == "--props":
             props = args[i + 1].split(","); i += 2
